@@ -33,9 +33,3 @@ func (c *TCPConn) VerifSendRaw(b []byte) (uint64, error) {
 func (lc *LocalConn) VerifSendRaw(b []byte) error {
 	return lc.manager.send(lc.remote, b)
 }
-
-// VerifHandleError exposes handleError: the sentinel a transport error is
-// translated to.
-func VerifHandleError(err error) error {
-	return handleError(err)
-}
